@@ -243,8 +243,9 @@ theorem sideShape_handle {x : SideSt} (h : SideShape x) (fails : Item → Bool) 
     · have h1 : SideShape (registerAll { x with delivered := upd x.delivered id (x.delivered id ++ [v]) } v.chans) :=
         sideShape_registerAll (by exact sideShape_congr rfl h) _
       split
-      · apply sideShape_localClose
-        split <;> exact sideShape_congr rfl h1
+      · split
+        · exact sideShape_localClose (by exact sideShape_congr rfl h1) _ _ _
+        · exact sideShape_epilogue (by exact sideShape_congr rfl h1) false
       · exact sideShape_congr rfl h1
     · split
       · next hr hq =>
